@@ -539,7 +539,7 @@ Definition has_element_u (v elem : value) : res value :=
   if early_false then Ok v_false else
   match vty v with
   | TSet e =>
-      if negb (is_known elem) then Ok unk_not_null else
+      if negb (is_wholly_known elem) then Ok unk_not_null else          (* fix: commit 74cd71d (was: the element itself unknown) *)
       let no_match := if is_wholly_known v then v_false else unk_not_null in
       if negb (ty_equals e (vty elem)) then Ok v_false else
       match vp v with
